@@ -62,13 +62,16 @@ META = {
                   'closure member is reported exactly once; the serial runner without --continue starts nothing after '
                   'the first failure.  Tied to doit on every run by trace acceptance of real failing runs and by '
                   'observing DB content and the following run on json, dbm and sqlite3.',
-    'level_note': 'partial_theorems: C05_continue_complete is proved for the serial runner ("every closure member gets '
-                  'exactly one terminal report, the run is never cut short"); the full statement '
-                  '(C05_continue_complete_full: parallel runners; "unmet only below a failed task") is a def and is '
-                  'monitored on every trace.  Clause (b) is proved at the M1 level (remove_success at every failure '
-                  'report, no later save); that an absent record means "not up-to-date next run" is OBSERVED on the '
-                  'real code by the third run (no M2 status model exists yet) -- monitor C05_reexecuted is a Python '
-                  'predicate; the other four monitors are Lean predicates (driver) cross-checked in Python.',
+    'level_note': 'partial_theorems: C05_continue_complete is proved at full strength for the serial runner '
+                  '(C05_continue_complete_serial: every closure member gets exactly one terminal report, the run is never '
+                  'cut short, `unmet` only below a failed task); for the parallel runners only '
+                  'C05_continue_complete_partial (never stops; `unmet` only below a failed task) -- the missing part '
+                  '("no closure member left unprocessed by the parallel main loop") is the def '
+                  'C05_continue_complete_full and is monitored on every trace.  Clause (b) is proved at the M1 level '
+                  '(remove_success at every failure report, no later save); that an absent record means "not '
+                  'up-to-date next run" is OBSERVED on the real code by the third run (no M2 status model exists yet) '
+                  '-- monitor C05_reexecuted is a Python predicate; the other four monitors are Lean predicates '
+                  '(driver; three of them proved to hold on every model trace) cross-checked in Python.',
     'rule': 'runlib DAG generator (3-8 tasks, all edge kinds, groups, shared deps, calc deliveries, up-to-date and '
             'ignored tasks) with failure-heavy oracle: outcome failed/error/saveerr x how return/raise/object, status '
             'error (missing file_dep); backend json|dbm|sqlite3; warm-up run or not; runner serial | thread k=1..4 x '
